@@ -277,7 +277,13 @@ func genIn(r *Rng) c03In {
 		in.Args = []string{"-a", "total={sumi {.} {3}}", "-g", "{1}"}
 	}
 	nf := 1 + r.Intn(4)
-	incs := []string{"1", "2", "-3", "0", "7", "x", "+5", "40"}
+	incs := []string{"1", "2", "-3", "0", "7", "x", "+5", "40", "1", "2", "5",
+		"9223372036854775807", "9223372036854775808", "-9223372036854775808", "-9223372036854775809", "9999999999999999999", "1234567890123456789"}
+	// staged corpora: the first part uses a few early-sorting sub-keys and one set of keys, the second part
+	// introduces later-sorting sub-keys through other keys only (rows that are never touched again while
+	// the column set grows)
+	staged := r.Bool()
+	subs := []string{" lead", "a", "b", "cc", "key,with,commas", "say \"hi\"", "zz", "zzz"}
 	for i := 0; i < nf; i++ {
 		var b []byte
 		nl := r.Intn(40)
@@ -286,6 +292,13 @@ func genIn(r *Rng) c03In {
 		}
 		for l := 0; l < nl; l++ {
 			line := Pick(r, keyAlpha) + "|" + Pick(r, keyAlpha[:6]) + "|" + Pick(r, incs)
+			if staged {
+				if i == 0 && l < nl/2 {
+					line = Pick(r, keyAlpha[:6]) + "|" + Pick(r, subs[:3]) + "|" + Pick(r, incs[:11])
+				} else {
+					line = Pick(r, keyAlpha[6:]) + "|" + Pick(r, subs) + "|" + Pick(r, incs[:11])
+				}
+			}
 			if r.Chance(1, 15) {
 				line = "no separators here"
 			}
